@@ -66,5 +66,15 @@ fn main() {
         "{} {}: evaluations={} distinct_nontrivial={} known_hits={:?} dropped={:?} violations={} wall={:.1}s",
         id, tier.name(), rep.evaluations, rep.distinct_nontrivial.len(), rep.known_hits, rep.dropped, rep.violations.len(), ctx.start.elapsed().as_secs_f64()
     );
-    std::process::exit(if rep.violated() { 1 } else { 0 });
+    if rep.violated() {
+        std::process::exit(1);
+    }
+    // A check that had to drop most of its cases (preconditions not met, faults not applied, transport
+    // trouble) has decided nothing: inconclusive (exit 2), never "held" and never a violation.
+    let dropped: u64 = rep.dropped.iter().filter(|(k, _)| !k.starts_with("excluded-known-shape")).map(|(_, n)| *n).sum();
+    if replay.is_none() && rep.evaluations >= 20 && dropped * 2 > rep.evaluations {
+        eprintln!("{}: INCONCLUSIVE: {} of {} cases were dropped without a verdict: {:?}", id, dropped, rep.evaluations, rep.dropped);
+        std::process::exit(2);
+    }
+    std::process::exit(0);
 }
